@@ -66,3 +66,88 @@ Theorem C07_exact_basename : forall r name, In r table ->
     Ok (match name with [] => false | _ => existsb (bytes_eqb (basename name)) (r_patterns r) end).
 Proof. intros r name H. exact (matches_name_exact table r name table_no_wildcards H). Qed.
 Print Assumptions C07_exact_basename.
+
+(* ---- names ---- *)
+(* name invariance, for any table: two names that every row's name predicate treats alike give the
+   same description of the same content *)
+Theorem C07_name_invariance : forall sniff parse t name1 name2 data,
+  (forall r, In r t -> matches_name r name1 = matches_name r name2) ->
+  inspect_in sniff parse t name1 data = inspect_in sniff parse t name2 data.
+Proof. exact name_invariance. Qed.
+Print Assumptions C07_name_invariance.
+
+(* T1: every name pattern of the regenerated table is literally one of the two reserved names *)
+Theorem C07_only_reserved_patterns : only_reserved_patterns table = true.
+Proof. exact table_only_reserved. Qed.
+Print Assumptions C07_only_reserved_patterns.
+
+(* the reserved SSH names are the only names that matter: under the running table all names that
+   are not reserved (empty path, or a base name other than exactly authorized_keys / known_hosts:
+   prefixes, suffixes, other case, any extension, any directory) give one and the same description
+   of a given content, whatever the sniffers and parsers do *)
+Theorem C07_unreserved_names_equivalent : forall sniff parse name1 name2 data,
+  reserved_name name1 = false -> reserved_name name2 = false ->
+  inspect sniff parse name1 data = inspect sniff parse name2 data.
+Proof.
+  intros. apply unreserved_names_equivalent_in; try assumption.
+  - exact table_no_wildcards.
+  - exact table_only_reserved.
+Qed.
+Print Assumptions C07_unreserved_names_equivalent.
+
+Example C07_unreserved_names_equivalent_applies :
+  reserved_name (bs "sub/known_hosts.old") = false /\ reserved_name (bs "x.cer") = false /\
+  reserved_name (bs "Authorized_keys") = false /\ reserved_name (bs "authorized_keys/x") = false /\
+  reserved_name (bs "/home/u/.ssh/authorized_keys") = true.
+Proof. repeat split; vm_compute; reflexivity. Qed.
+
+(* first sentence of C07, for any wildcard-free table: content that carries the signature of a row
+   of the leading signature block and is accepted by that row's parser gets a description that is
+   a function of the signature block and the content only; neither the file name (reserved or
+   not) nor any row after the signature block (name rows, sniffers) can change it *)
+Theorem C07_signature_decides : forall sniff parse t name data r i,
+  no_wildcards t = true ->
+  In r (sig_prefix t) -> matches_magic r data = true -> parse (r_parser r) data = Ok i ->
+  inspect_in sniff parse t name data =
+    first_success parse (map r_parser (filter (fun x => matches_magic x data) (sig_prefix t))) data.
+Proof. exact signature_decides. Qed.
+Print Assumptions C07_signature_decides.
+
+(* ... under the running table: whatever the file is called *)
+Theorem C07_signature_wins_any_name : forall sniff parse name name' data r i,
+  In r (sig_prefix table) -> matches_magic r data = true -> parse (r_parser r) data = Ok i ->
+  inspect sniff parse name data = inspect sniff parse name' data.
+Proof.
+  intros sniff parse name name' data r i Hin Hm Hp.
+  exact (signature_wins_any_name sniff parse table name name' data r i table_no_wildcards Hin Hm Hp).
+Qed.
+Print Assumptions C07_signature_wins_any_name.
+
+Example C07_signature_wins_any_name_applies :
+  exists r, In r (sig_prefix table) /\ matches_magic r [237; 171; 238; 219; 3; 0] = true.
+Proof.
+  exists (nth 3 table (mkrow [] [] [] [])). split.
+  - vm_compute. tauto.
+  - vm_compute. reflexivity.
+Qed.
+
+(* the hypothesis "r is in the leading signature block" is needed: with a name-only row placed
+   before a signature row, content carrying that signature and accepted by its parser is described
+   differently under two names (this is what such a reordering of the table would mean) *)
+Theorem C07_name_row_before_signature_refuted :
+  exists r, In r table_name_row_first /\ is_sig_row r = true /\
+    matches_magic r (bs "-----BEGIN X-----") = true /\
+    parse_echo (r_parser r) (bs "-----BEGIN X-----") = Ok (Info (bs "PEMFile") [] []) /\
+    inspect_in sniff_never parse_echo table_name_row_first (bs "x.pem") (bs "-----BEGIN X-----")
+      <> inspect_in sniff_never parse_echo table_name_row_first (bs "x.cer") (bs "-----BEGIN X-----").
+Proof. exact name_row_before_signature_refuted. Qed.
+Print Assumptions C07_name_row_before_signature_refuted.
+
+(* ... and so is "every name pattern is a reserved name": one more name row (here *.cer, before the
+   sniffers) makes the description of signature-less content depend on a non-reserved name *)
+Theorem C07_extra_name_row_refuted :
+  reserved_name (bs "x.cer") = false /\ reserved_name (bs "x.txt") = false /\
+  inspect_in (fun _ _ => true) parse_echo table_extra_name_row (bs "x.cer") (bs "TUlJ")
+    <> inspect_in (fun _ _ => true) parse_echo table_extra_name_row (bs "x.txt") (bs "TUlJ").
+Proof. exact extra_name_row_refuted. Qed.
+Print Assumptions C07_extra_name_row_refuted.
